@@ -33,10 +33,14 @@ MANIFEST = {
             "bytes IF AND ONLY IF the program is WellFormed (every macro name defined once, every invocation resolves with matching "
             "arity and expansion ends, no label defined twice, every mentioned label and expression macro defined, every operand "
             "evaluates under the final layout to a value that fits its push), and then exactly the specification's bytes; otherwise an "
-            "error value and no bytes; no internal panic outcome is reachable. Simulation invariant by induction over fuel, for all "
-            "programs and suffix supplies.",
+            "error value and no bytes; no internal panic outcome is reachable. Error kinds name real faults: UndeclaredLabels ls lists — as a "
+            "set — exactly the labels operands of the reporting scope mention and that scope does not define (never empty); "
+            "UndeclaredInstructionMacro n only for a name that is not an instruction macro of its scope; DuplicateMacro n exactly for a "
+            "scope defining n twice. Simulation invariant by induction over fuel, for all programs and suffix supplies.",
     "note": "Trusted: Lean kernel; Asm/Assemble.lean tied to asm.rs (as repaired) by the differential run on well-formed programs and 12 "
             "fault kinds at random positions; Asm/Spec.lean is my formalisation of 'well formed'; which error is reported first when "
-            "several faults coexist is not specified (any is accepted); parsing is tied, not proved.",
+            "several faults coexist is not specified (any is accepted; the remaining kinds — duplicate label, arity, variable, range / "
+            "division errors — are matched against the Python fault set, not proved); parsing is covered by C14_parse / C03 / C02 for "
+            "their families and otherwise tied.",
     "technique": "Lean 4 refinement proof (implementation model = specification, iff) + differential correspondence + Python fault-set oracle",
 }
